@@ -59,7 +59,9 @@ SIZES = [0, 1, 63, 64, 65, 255, 256, 4000, 4063, 4064, 4090, 4096, 4097, 5000, 8
 def c12_cases(tier, rng):
     cases = []; n = 0
     def add(sends, pool=3, maxsize=0, chunk=0, parallel=False):
-        cases.append({"id": len(cases) + 1, "pool": pool, "maxsize": maxsize, "chunk": chunk, "sends": sends, "streams": [], "delay": "", "growpool": False, "parallel": parallel})
+        # every eighth case: the two nodes were started at different times (their incarnation stamps differ)
+        cases.append({"id": len(cases) + 1, "pool": pool, "maxsize": maxsize, "chunk": chunk, "sends": sends, "streams": [], "delay": "", "growpool": False, "parallel": parallel,
+                      "stagger": len(cases) % 8 == 3})
     def nid():
         nonlocal n
         n += 1; return n
@@ -126,7 +128,8 @@ def c12_cases(tier, rng):
 def c13_cases(tier, rng):
     cases = []
     def add(streams, pool=3, delay="", grow=False, chunk=0):
-        cases.append({"id": len(cases) + 1, "pool": pool, "maxsize": 0, "chunk": chunk, "sends": [], "streams": streams, "delay": delay, "growpool": grow, "parallel": False})
+        cases.append({"id": len(cases) + 1, "pool": pool, "maxsize": 0, "chunk": chunk, "sends": [], "streams": streams, "delay": delay, "growpool": grow, "parallel": False,
+                      "stagger": len(cases) % 8 == 5})
     def st(n, fromr, tor, via="pid", comp="", big=0):
         return {"from": "", "to": "", "n": n, "via": via, "fromr": fromr, "tor": tor, "comp": comp, "big": big}
     n = 400 if tier == "quick" else 1500
